@@ -42,15 +42,16 @@ def relevant(hist, obs):
     return sum(1 for o in obs if not o.startswith("sent=-")) >= 2
 
 
-def threaded_part(res, rng, tier):
+def threaded_part(res, rng, tier, episode=None, versions=("2.0", "2.1", "2.2", "1.5")):
     """The same prescribed replies on the threaded gateway (real SyncTasks, jobs queued and run by the real
     poll loop one iteration at a time, queue drained after every line, so no ordering question arises): what
     goes out must be what the asyncio gateway sends for the same lines."""
     from . import c19
     for k in range((25 if tier == "quick" else 400) * common.effort(tier)):
-        version = rng.choice(["2.0", "2.1", "2.2", "1.5"])
+        version = rng.choice(list(versions))
         hist = gw.gen_history(rng, version, rng.choice([10, 20]), persist=False, ota=False, sleep=True, malformed=0.05)
-        hist = [op for op in gw.pending_pair_burst(rng, version, hist) if op[0] in ("L", "S")]
+        hist = episode(rng, version, hist) if episode is not None and k % 4 else gw.pending_pair_burst(rng, version, hist)
+        hist = [op for op in hist if op[0] in ("L", "S")]
         toks = c19.make_schedule(rng, hist, "drained")
         sync = c19.run_sync(version, toks)
         a_em, a_state, _ = c19.run_async(version, toks)
